@@ -7,9 +7,9 @@ class ModelError(Exception): pass      # definite API misuse by the emitted prog
 class NotModelled(Exception): pass     # outside the model
 
 class Ctx:
-    def __init__(self): self.pc = []; self.shaped = []
+    def __init__(self): self.pc = []; self.shaped = []; self.assume = []; self.uniform = {}
     def cur(self): return gand(*self.pc)
-    def reset(self): self.pc = []; self.shaped = []
+    def reset(self): self.pc = []; self.shaped = []; self.assume = []; self.uniform = {}
 CTX = Ctx()
 
 def ckey(c):
@@ -170,10 +170,18 @@ class Union(View):
         self.a, self.b = a, b; self.below = a.below
     def items(self):
         ai, bi = self.a.items(), self.b.items()
-        if any(is_symt(c) for _, c, _ in ai + bi): raise NotModelled("union over symbolic coordinates")
+        symc = [c for _, c, _ in ai + bi if is_symt(c)]
+        if symc:
+            # only coordinates j*step of ONE symbolic step (distinct and ordered by j, 0 first) can be united by identity
+            info = [CTX.uniform.get(ckey(c)) for c in symc]
+            if any(i is None for i in info) or len({i[0] for i in info}) != 1 or any(c != 0 for _, c, _ in ai + bi if not is_symt(c)):
+                raise NotModelled("union over symbolic coordinates")
         da = {ckey(c): (g, c, p) for g, c, p in ai}
         db = {ckey(c): (g, c, p) for g, c, p in bi}
-        keys = sorted(set(da) | set(db), key=csort_key)
+        if symc:
+            keys = sorted(set(da) | set(db), key=lambda k: CTX.uniform[k][1] if k in CTX.uniform else 0)
+        else:
+            keys = sorted(set(da) | set(db), key=csort_key)
         res = []
         for k in keys:
             ga, ca, pa = da.get(k, (False, None, None))
@@ -324,8 +332,36 @@ class STensor:
         root = self._at_depth(self.root, depth, fn)
         ids = self.rank_ids[:depth] + [self.rank_ids[depth] + ".1", self.rank_ids[depth] + ".0"] + self.rank_ids[depth + 1:]
         return STensor(ids, self.name, root=root, out=self.out)
+    def _split_uniform_symbolic(self, step, depth):
+        """step is a z3 Int (>= 1 by assumption): partition j holds the elements with j*step <= c < (j+1)*step;
+        its coordinate is the term j*step (0 for j = 0); candidate partitions j = 0..max coordinate"""
+        def fn(f):
+            if any(is_symt(s.coord) or isinstance(s.coord, tuple) for s in f.slots):
+                raise NotModelled("symbolic-step split over symbolic or tuple coordinates")
+            if not f.slots:
+                return SFiber([], f.below + 1, f.out)
+            top = max(int(s.coord) for s in f.slots)
+            slots = []
+            for j in range(top + 1):
+                lo = step * j if j else 0
+                mem = []
+                for s in f.slots:
+                    c = int(s.coord)
+                    if c < j:          # step >= 1 => j*step >= j > c
+                        continue
+                    inpart = gand(num_le(lo, c), num_lt(c, step * (j + 1)))
+                    g = gand(s.guard, inpart)
+                    if g is not False: mem.append(Slot(g, s.coord, s.payload))
+                if not mem: continue
+                if j: CTX.uniform[ckey(lo)] = (step.sexpr(), j)     # coordinates j*step of one step are ordered by j and pairwise distinct
+                slots.append(Slot(gor(*[m.guard for m in mem]), lo, SFiber(mem, f.below, f.out)))
+            return SFiber(slots, f.below + 1, f.out)
+        return self._split(depth, fn)
     def splitUniform(self, step, depth=0, pre_halo=0, post_halo=0):
-        if is_symt(step): raise NotModelled("symbolic step")
+        if is_symt(step):
+            if is_symt(pre_halo) or is_symt(post_halo) or pre_halo or post_halo:
+                raise NotModelled("symbolic step with a halo")
+            return self._split_uniform_symbolic(step, depth)
         def fn(f):
             parts = {}
             for s in f.slots:
@@ -349,17 +385,21 @@ class STensor:
         return self._split(depth, fn)
     def splitEqual(self, size, depth=0, pre_halo=0, post_halo=0):
         if pre_halo or post_halo: raise NotModelled("halo on splitEqual")
+        symsize = is_symt(size)
         def fn(f):
             n = len(f.slots)
             ranks = []; r = 0
             for s in f.slots:
                 ranks.append(r); r = nadd(r, b2i(s.guard))
-            nparts = (n + size - 1) // size
+            # a symbolic size is >= 1 by assumption, so at most n partitions; partition j holds ranks size*j .. size*(j+1)-1
+            nparts = n if symsize else (n + size - 1) // size
             slots = []
             for j in range(nparts):
                 mem = []
-                for s, rk in zip(f.slots, ranks):
-                    if not is_symt(rk):
+                for idx, (s, rk) in enumerate(zip(f.slots, ranks)):
+                    if symsize and idx < j:      # rank <= idx < j <= size*j
+                        continue
+                    if not is_symt(rk) and not symsize:
                         inpart = (size * j <= rk < size * (j + 1))
                     else:
                         inpart = gand(num_le(size * j, rk), num_lt(rk, size * (j + 1)))
